@@ -25,6 +25,7 @@ func init() {
 		Rule: "every value returned by NewDense, NewSparse, the named families (parameter grids from the smallest accepted size up to about 40 vertices in the quick tier and about 250 in the thorough tier), RandomGraph, RandomTree, PruferDecode (ALL codes n <= 6 quick / n <= 8 thorough, seeded codes up to n = 40), MulticodeDecode, Graph6Decode, Sparse6Decode (strings written by the harness's own encoders), " +
 			"ComplementDense, Complement view, LineGraphDense, InducedSubgraph view, SplitEdge, Contract (inputs: ALL labelled graphs n <= 5 with all vertex pairs, all classes n = 6 (thorough: and n = 7) in a random labelling, seeded graphs up to 40 vertices; as DenseGraph, SparseGraph and as live views) is read through N, IsEdge (all ordered pairs incl. the diagonal), M, Degrees, Neighbours " +
 			"and judged: loop-free, symmetric, M / Degrees / Neighbours equal to the adjacency, edge set equal to the independent definition (labelled where the documentation fixes the numbering, else up to isomorphism); caller slices are modified after NewDense / NewSparse / decoders and the value re-read; views are re-read after the underlying graph changed. " +
+			"CHAINS of Contract / SplitEdge applied to ONE value: all chains of <= 3 steps (all vertex pairs) on all labelled graphs n <= 4 and on ~80 named generator / decoder values, seeded chains of 2..5 steps on graphs up to 12 vertices, started from values of every origin (struct literal, NewDense, NewSparse, edits, Graph6/Sparse6/Multicode/Pruefer decoders, ComplementDense, LineGraphDense, Copy, InducedSubgraph, RemoveVertex of a supergraph, generators), with a Complement view and an InducedSubgraph view taken before the chain and re-read after the steps. " +
 			"non-trivial = judged value with n >= 3 and m >= 1; distinct = hash of (API, representation, concrete input)",
 		Assumptions: []string{
 			"oracle: rg.G bit matrix + definitions in ref.go written from the documentation strings / textbook definitions (self-checked against published counts and automorphism group orders)",
@@ -33,8 +34,8 @@ func init() {
 			"the numbering is taken as documented for CompletePartiteGraph (parts consecutive), KneserGraph (colex), CirculantGraph, CirculantBipartiteGraph (a_i = i, b_j = n+j), GeneralisedPetersenGraph (u_i = i, v_i = n+i); for every other family a differently numbered isomorphic graph is accepted",
 		},
 		Run:            run,
-		MinEvaluations: map[string]int{"quick": 150000, "thorough": 1500000},
-		MinNontrivial:  map[string]int{"quick": 50000, "thorough": 500000},
+		MinEvaluations: map[string]int{"quick": 1000000, "thorough": 10000000},
+		MinNontrivial:  map[string]int{"quick": 500000, "thorough": 5000000},
 		RequiredObs: []string{
 			"judged:NewDense", "judged:NewSparse", "judged:PruferDecode", "judged:MulticodeDecode", "judged:Graph6Decode", "judged:Sparse6Decode",
 			"judged:ComplementDense|dense", "judged:Complement|dense", "judged:Complement|sparse", "judged:LineGraphDense|dense", "judged:InducedSubgraph|dense", "judged:InducedSubgraph|sparse",
@@ -42,6 +43,9 @@ func init() {
 			"probe:NewDense caller slice modified afterwards", "probe:NewSparse caller slices modified afterwards",
 			"probe:Complement view re-read after the graph changed", "probe:InducedSubgraph view re-read after the graph changed",
 			"families_equal_to_reference_numbering",
+			"judged:chain|dense", "judged:chain|sparse", "chains of length 2", "chains of length 3",
+			"chains with a vertex added right after a non-last vertex was removed",
+			"probe:chain: Complement view taken before the chain re-read after a step", "probe:chain: InducedSubgraph view taken before the chain re-read after a step",
 		},
 	})
 }
@@ -49,6 +53,9 @@ func init() {
 type runner struct {
 	c     *engine.Ctx
 	muted map[string]bool
+	// exhaustive: the cases of the running enumeration are distinct by
+	// construction, so non-trivial ones are counted instead of hashed
+	exhaustive bool
 }
 
 // fail reports a violation with key api|kind[|witness].  A second failure of
@@ -85,7 +92,11 @@ func (r *runner) check(api, caseKey, witness, kindPrefix string, detail interfac
 		return nil
 	}
 	if s.n >= 3 && s.m >= 1 {
-		c.NT(api, caseKey, kindPrefix)
+		if r.exhaustive {
+			c.NTDistinct(1)
+		} else {
+			c.NT(api, caseKey, kindPrefix)
+		}
 	}
 	c.ObsMax("vertices of a judged value", s.n)
 	return s
@@ -1196,6 +1207,7 @@ func run(c *engine.Ctx) {
 	us = append(us, familyUnits(c)...)
 	us = append(us, pruferUnits(c)...)
 	us = append(us, graphUnits(c)...)
+	us = append(us, chainUnits(c)...)
 	for _, u := range us {
 		u := u
 		c.Unit(u.name, func() { u.f(r) })
